@@ -16,6 +16,7 @@ import (
 	"fmt"
 
 	"verif/mc"
+	"verif/ref/gf"
 
 	rs "github.com/makiuchi-d/gozxing/common/reedsolomon"
 )
@@ -174,5 +175,159 @@ func runRegisterStates() {
 			if encode(l, f, rs.NewReedSolomonEncoder(f.lib), data, j.r) != nil {
 				l.Distinct("nontrivial", fmt.Sprint("regstate", f.name, j.r, j.a, j.kind, j.z))
 			}
+		})
+}
+
+// runLookalikeSyndromes: error patterns whose FIRST j syndromes are exactly those of one single
+// error (a geometric progression e*X^(i+base)) although j+1 symbols are wrong. A decoder that
+// recognises "a single error" from a prefix of the syndromes, or an iteration that stops when a
+// partial discrepancy sequence vanishes, is wrong exactly there; with random magnitudes the
+// probability is |F|^-(j-1). The j+1 magnitudes are solved in the reference field: j linear
+// conditions, the last magnitude fixed to 1. X is the locator of a position that is NOT in error
+// (and, second variant, of the first wrong position).
+func runLookalikeSyndromes() {
+	type job struct{ f, k, r int }
+	var jobs []job
+	for fi, f := range fields {
+		for _, sh := range [][2]int{{6, 6}, {10, 10}, {12, 16}, {20, 18}, {14, 22}, {30, 30}} {
+			if sh[0]+sh[1] <= f.ref.Size-1 {
+				jobs = append(jobs, job{fi, sh[0], sh[1]})
+			}
+		}
+	}
+	chk.Range("errors whose first j syndromes look like ONE error: 6 fields x code shapes {(12,6),(20,10),(28,12),(38,20),(36,14),(60,30)} that fit x every j = 1..min(12, floor(r/2)-1) x 3 position families x {locator of an undamaged position, of the first damaged one}: j+1 errors, each word must be restored exactly", len(jobs),
+		func(i int) string { return fmt.Sprint(jobs[i]) },
+		func(l *mc.Local, i int) {
+			jb := jobs[i]
+			f := fields[jb.f]
+			F := f.ref
+			n := jb.k + jb.r
+			data := make([]int, jb.k)
+			for q := range data {
+				data[q] = (q*13 + 5) % F.Size
+			}
+			for j := 1; j <= 12 && j+1 <= jb.r/2; j++ {
+				tp := j + 1
+				posFams := [][]int{nil, nil, nil}
+				for e := 0; e < tp; e++ {
+					posFams[0] = append(posFams[0], e)
+					posFams[1] = append(posFams[1], n-tp+e)
+					posFams[2] = append(posFams[2], (e*(n-1))/(tp-1))
+				}
+				for pf, pos := range posFams {
+					if !distinct(pos) {
+						continue
+					}
+					inErr := map[int]bool{}
+					for _, p := range pos {
+						inErr[p] = true
+					}
+					free := -1
+					for p := n / 2; p < n; p++ {
+						if !inErr[p] {
+							free = p
+							break
+						}
+					}
+					for variant, xp := range []int{free, pos[0]} {
+						if xp < 0 {
+							continue
+						}
+						X := F.Pow(gf.Alpha, n-1-xp)
+						loc := make([]int, tp)
+						for q, p := range pos {
+							loc[q] = F.Pow(gf.Alpha, n-1-p)
+						}
+						// sum_k m_k * loc_k^(i+base) = X^(i+base), i = 0..j-1, with m_{tp-1} = 1
+						A := make([][]int, j)
+						b := make([]int, j)
+						for row := 0; row < j; row++ {
+							A[row] = make([]int, j)
+							for q := 0; q < j; q++ {
+								A[row][q] = F.Pow(loc[q], row+f.base)
+							}
+							b[row] = F.Pow(X, row+f.base) ^ F.Pow(loc[tp-1], row+f.base)
+						}
+						m, ok := F.Solve(A, b)
+						if !ok {
+							l.Count("lookalike_system_singular", 1)
+							continue
+						}
+						mag := append(m, 1)
+						zero := false
+						for _, v := range mag {
+							if v == 0 {
+								zero = true
+							}
+						}
+						if zero {
+							l.Count("lookalike_vector_with_zero_magnitude", 1)
+							continue
+						}
+						oneDecode(l, f, data, jb.r, pos, mag)
+						l.Count("lookalike_words", 1)
+						l.Distinct("nontrivial", fmt.Sprint("lookalike", f.name, jb.k, jb.r, j, pf, variant))
+					}
+				}
+			}
+		})
+}
+
+// runCosetErrors: e errors at positions p, p+s, p+2s, ... with s = (|F|-1)/e. Their locators form a
+// coset of the e-th roots of unity, so the error-locator polynomial is 1 + c*x^e whatever the
+// magnitudes are: a polynomial of degree e with ONE non-constant term. Root searches and shortcuts
+// that count terms instead of the degree, or step through the non-zero terms only, meet their
+// sparsest input here. Every divisor e of |F|-1 with 2 <= e <= 40, three start positions, three
+// magnitude sets, in the full-length code with 2e + 2 parity symbols.
+func runCosetErrors() {
+	type job struct{ f, e int }
+	var jobs []job
+	for fi, f := range fields {
+		for e := 2; e <= 40; e++ {
+			if (f.ref.Size-1)%e == 0 && 2*e+2 < f.ref.Size-1 {
+				jobs = append(jobs, job{fi, e})
+			}
+		}
+	}
+	chk.Range("errors whose locators are a coset of roots of unity (locator polynomial 1 + c*x^e, one non-constant term): 6 fields x every divisor e of |F|-1 in 2..40 x start positions {0, 1, s-1} x 3 magnitude sets, full-length code with 2e+2 parity symbols: each word must be restored exactly", len(jobs),
+		func(i int) string { return fmt.Sprint(fields[jobs[i].f].name, " e=", jobs[i].e) },
+		func(l *mc.Local, i int) {
+			j := jobs[i]
+			f := fields[j.f]
+			n := f.ref.Size - 1
+			r := 2*j.e + 2
+			k := n - r
+			s := n / j.e
+			data := make([]int, k)
+			for q := range data {
+				data[q] = (q*17 + 9) % f.ref.Size
+			}
+			enc := rs.NewReedSolomonEncoder(f.lib)
+			word := encode(l, f, enc, data, r)
+			if word == nil {
+				return
+			}
+			for _, p0 := range []int{0, 1, s - 1} {
+				pos := make([]int, j.e)
+				for q := range pos {
+					pos[q] = p0 + q*s
+				}
+				for ms := 0; ms < 3; ms++ {
+					mag := make([]int, j.e)
+					for q := range mag {
+						switch ms {
+						case 0:
+							mag[q] = 1
+						case 1:
+							mag[q] = f.ref.Size - 1
+						default:
+							mag[q] = 1 + (q*29+p0*7+3)%(f.ref.Size-1)
+						}
+					}
+					decodeWord(l, f, word, k, r, pos, mag)
+					l.Count("coset_error_words", 1)
+				}
+			}
+			l.Distinct("nontrivial", fmt.Sprint("coset", f.name, j.e))
 		})
 }
